@@ -167,7 +167,11 @@ func c06Conn(k *core.Case) {
 	g := r.Range(2, 16)
 	per := r.Range(2, 12)
 	shortDeadlines := r.Chance(1, 4)
-	k.Describe(map[string]any{"path": "conn", "mode": mode, "goroutines": g, "calls_each": per, "short_deadlines": shortDeadlines})
+	// a send buffer that drains slowly: while one caller is inside its write the others queue on the
+	// connection's write lock (whatever they did before taking it is then exposed for a long time)
+	slowWrites := time.Duration(core.Pick(r, 0, 0, 50, 200, 600)) * time.Microsecond
+	env.Net.WriteDelay = slowWrites
+	k.Describe(map[string]any{"path": "conn", "mode": mode, "goroutines": g, "calls_each": per, "short_deadlines": shortDeadlines, "write_delay": slowWrites.String()})
 	var mu sync.Mutex
 	var calls []*c06Call
 	var wg sync.WaitGroup
